@@ -108,6 +108,27 @@ fn check_pattern(p: &str, name: &str, la: bool) -> bool {
     true
 }
 
+/// one compiled Pattern (and, for comparison patterns, one Dewey) asked about several names in a row, forwards then backwards: every
+/// answer must be the statement's, whatever was asked before (a memo, a cached split or any other state kept between calls shows here)
+fn check_pattern_seq(p: &str, names: &[&str], la: bool) -> bool {
+    if p.contains("**") || (has_any(p, "{}") && balanced(p) && expand(p).iter().any(|e| e.contains("**"))) {
+        return true;
+    }
+    let Ok(pat) = Pattern::new(p) else { return true };
+    let dw = if !has_any(p, "{}") && has_any(p, "<>") { Dewey::new(p).ok() } else { None };
+    let seq: Vec<&str> = names.iter().chain(names.iter().rev()).copied().collect();
+    for (k, n) in seq.iter().enumerate() {
+        let e = pattern_match(p, n, la);
+        let a = Some(pat.matches(n));
+        let d = dw.as_ref().map(|d| d.matches(n));
+        if e != a || (d.is_some() && d != a) {
+            witness("pattern_match_seq", &[("pattern", p.into()), ("names", seq[..=k].join("\u{1f}"))], &ob(e), &ob(if e != a { a } else { d }));
+            return false;
+        }
+    }
+    true
+}
+
 fn search_c01(r: &mut Rng, la: bool, iters: usize) -> bool {
     for _ in 0..iters {
         let v1 = gen_version(r);
@@ -296,6 +317,9 @@ fn search_c04(r: &mut Rng, la: bool, iters: usize) -> bool {
                 return false;
             }
         }
+        if !check_pattern_seq(p, &["foo-1.0", "foo-1.5", "a-1.0", "foo-client-1.0", "py-sphinx-5.0", "py39-sphinx-5.0", "c-1.0", "ab-1.0", "ad-1.0", "d-1.0", "curl-7.45", "mysql-8.0", "a-b-de-h-2", "ac-1.0"], la) {
+            return false;
+        }
     }
     let frag = ["a", "b", "{", "}", ",", "{a,b}", "{,x}", "-1.0", ">=1", "<2", "-[0-9]*", "{b,c}", "pkg", "d", "-", "1", "*", "[0-9", "<1>0", "{a,}", "{}"];
     let names = ["ad-1.0", "ab-1.0", "ac-1.0", "d-1.0", "pkg-1.0", "a-1", "b-1", "pkgb-1.0", "x-1.0", "ab", "a", ""];
@@ -332,6 +356,14 @@ fn search_c05(r: &mut Rng, la: bool, iters: usize) -> bool {
             if !check_pattern(p, n, la) {
                 return false;
             }
+        }
+        if !check_pattern_seq(p, DICT_NAMES, la) {
+            return false;
+        }
+    }
+    for p in ["foo>=1.0", "foo>1<2", "foo-bar<=1.0nb2", "p>=1.0alpha"] {
+        if !check_pattern_seq(p, &["foo-1.0", "foo-0.9", "foo-1.5", "foo-2", "foo-bar-1.0", "foo-bar-1.0nb3", "p-1.0", "p-1.0alpha", "foo", "bar-1.0"], la) {
+            return false;
         }
     }
     let frag = ["a", "b", "ab", "-", "*", "?", "[ab]", "[!a]", "[a-c]", "[0-9]", "1", ".", "x", "-1", "[!0-9]", "B", "[^a]", "[^0-9]", "[a^]", "^", "!", "[.]", "[*]"];
@@ -585,6 +617,22 @@ fn gen_plist(r: &mut Rng, valid_only: bool) -> Vec<u8> {
     t
 }
 fn search_c14(r: &mut Rng, iters: usize) -> bool {
+    // command words that are not UTF-8, not ASCII, differently cased, glued to their argument or followed by odd blanks: an '@' line
+    // is a command whatever bytes its word has (unknown commands are errors, never files)
+    let words: [&[u8]; 14] = [b"@caf\xe9", b"@\xff", b"@cwd\xa0", b"@na\xc3\xa9me", b"@CWD", b"@Name", b"@cwd/opt", b"@\xc3", b"@ignore\xe9", b"@@cwd", b"@cw", b"@cwdd", b"@comment\xff", b"@\x80exec"];
+    let tails: [&[u8]; 6] = [b"", b" /dir", b" x", b"\t/dir", b" \xe9", b"  "];
+    for w in words {
+        for t in tails {
+            let mut l = w.to_vec();
+            l.extend_from_slice(t);
+            let e = plist_entry(&l);
+            let a = PlistEntry::from_bytes(&l).ok();
+            if e != a {
+                witness("plist_entry", &[("hexline", hex(&l))], &format!("{:?}", e), &format!("{:?}", a));
+                return false;
+            }
+        }
+    }
     for it in 0..iters {
         // single lines
         let l = gen_plist_line(r);
@@ -734,6 +782,22 @@ fn search_c08(r: &mut Rng, iters: usize) -> bool {
         if e != a {
             witness("summary_parse", &[("text", t)], &format!("{:?}", e), &format!("{:?}", a));
             return false;
+        }
+        if f == 3 || f == 0 {
+            // the first offending line decides, wherever it stands: a malformed integer FOLLOWED by a well-formed line of the same
+            // variable, an unknown variable or a line without '=' in the middle (position derived from the text: no extra draw)
+            let mut ls: Vec<String> = t.lines().filter(|l| *l != "FILE_SIZE=12x").map(|l| l.to_string()).collect();
+            let k = t.len() % (ls.len() + 1);
+            let bad = ["FILE_SIZE=12x", "SIZE_PKG=", "SIZE_PKG=1e3", "FILE_SIZE= 7", "SIZE_PKG=9223372036854775808", "NOPE=1", "no equals sign", "FILE_SIZE=0x10"][t.len() / 7 % 8];
+            ls.insert(k, bad.to_string());
+            if t.len() % 2 == 0 { ls.push("FILE_SIZE=42".to_string()); ls.push("SIZE_PKG=43".to_string()); }
+            let mut t2 = ls.join("\n");
+            t2.push('\n');
+            let (e2, a2) = (oracle_summary(&t2), real_summary(&t2));
+            if e2 != a2 {
+                witness("summary_parse", &[("text", t2)], &format!("{:?}", e2), &format!("{:?}", a2));
+                return false;
+            }
         }
         if let Ok(s) = Summary::from_str(&t) {
             if !s.is_completed() {
@@ -936,7 +1000,7 @@ fn gen_canonical(r: &mut Rng) -> DInfo {
         used.push(name.clone());
         let patch = is_patch_name(&name);
         let mut sums = vec![];
-        for a in DIGESTS { if r.below(2) == 0 { sums.push((a.to_string(), format!("{:x}", r.next()))); } }
+        for a in DIGESTS { if r.below(2) == 0 { let h = r.next(); sums.push((a.to_string(), match h % 5 { 0 => format!("{:X}", h), 1 => format!("{:x}AbC", h), _ => format!("{:x}", h) })); } }
         if sums.is_empty() { sums.push(("SHA1".to_string(), "ab".to_string())); }
         // checksum lines keep the order they were written in, whatever that order is (derived from the name: no extra random draw)
         match name.iter().map(|&b| b as usize).sum::<usize>() % 4 { 1 => sums.reverse(), 2 => sums.rotate_left(1), 3 if sums.len() > 2 => sums.swap(0, 2), _ => {} }
@@ -1139,6 +1203,18 @@ fn run_witness(args: &[String]) -> i32 {
     let expected = g("expected");
     let actual = match kind {
         "pattern_match" => ob(real_pattern_match(&g("pattern"), &g("pkg"))),
+        "pattern_match_seq" => match Pattern::new(&g("pattern")) {
+            Ok(pat) => {
+                let names = g("names");
+                let seq: Vec<&str> = names.split('\u{1f}').collect();
+                let dw = Dewey::new(&g("pattern")).ok();
+                let mut last = (false, None);
+                for n in &seq { last = (pat.matches(n), dw.as_ref().map(|d| d.matches(n))); }
+                // the disagreeing answer of the last call: the Pattern's, or the Dewey's when the Pattern's is the expected one
+                if last.0.to_string() != expected { last.0.to_string() } else { last.1.unwrap_or(last.0).to_string() }
+            }
+            Err(_) => "compile-error".into(),
+        },
         "pattern_compile" => Pattern::new(&g("pattern")).is_ok().to_string(),
         "dewey_match" => ob(Dewey::new(&g("pattern")).ok().map(|d| d.matches(&g("pkg")))),
         "pattern_vs_dewey" => ob(real_pattern_match(&g("pattern"), &g("pkg"))),
